@@ -9,6 +9,7 @@
   driver executes and the `Rat` tables of the numeric obligations alike.
 -/
 import UnytModel.Names
+import UnytModel.NameGen
 import UnytModel.Ref.C14
 import UnytModel.Generated.Tables
 import UnytModel.Generated.C14Base
@@ -286,5 +287,17 @@ def namespacesClosed : Bool :=
   && (shadowedC.all fun n => invTree.contains n)
   && customForeignC.isEmpty
   && invTree.size == invCount && allRows.length == invCount
+
+/-! ### the generator of the name tables -/
+
+/-- the regenerated inputs of `generate_name_alternatives` -/
+def genInputs : NameGen.Inputs :=
+  { lut := lutC.map fun (k, e) => (k, e.prefixable), prefixes := prefixWordsC, alts := altsInC, ct := charTable }
+
+/-- the model of `generate_name_alternatives()` run on the regenerated inputs -/
+def generateDefault : Except (Name × Name) NameGen.Result :=
+  match NameGen.generate genInputs with
+  | .ok outs => .ok (NameGen.resultOf outs)
+  | .error e => .error e
 
 end Unyt.C14
